@@ -1,15 +1,15 @@
 SPECIFICATION Spec
 CONSTANTS
-  NG = 2
-  MaxCalls = 1
-  ShapeNames <- InlineShapes
+  NG = 1
+  MaxCalls = 2
+  ShapeNames <- FailThenGood
   AllowReg = FALSE
-  CopyOpts = FALSE
+  CopyOpts = TRUE
   TightCap = TRUE
   CopyArgs = TRUE
   HtmlDep = FALSE
   LazyInit = FALSE
-  PoolBuf = FALSE
+  PoolBuf = TRUE
 VIEW View
-INVARIANT SharedReadOnly
+INVARIANT Deterministic
 CHECK_DEADLOCK FALSE
